@@ -83,6 +83,7 @@ func (h *Hist) genConfigs() {
 		if r.chance(15) {
 			o.AWS.ResourceTagging = true
 		}
+		o.AWS.Lifecycle = r.pick("", "", "on-demand", "spot") // read by the fleet path only; must not matter anywhere else
 		if focus == "fleet" {
 			// launch-template mode: scale-ups go through CreateFleet + readiness polling (1 s ticker) + AttachInstances
 			o.AWS.LaunchTemplateID = "lt-1"
